@@ -10,7 +10,7 @@ RUN_MODULE = "Spec.TTLMap Model.DecorStrategies Run.C14"
 EXPLAIN = "explain"
 RULE = ("one decorated function per case (cache.early / soft / failover / hit through the facade, default protection and condition; in 4 of 10 cases calls for a second argument value are interleaved), parameter grid "
         "ttl in {1,2,4 s} spelled as float / int / timedelta / string / callable, early_ttl/soft_ttl in {0.5,1,2 s}, cache_hits 1-4, update_after 0-3, background on/off; 2-14 calls at instants on a "
-        "1/16 s grid chosen below / exactly at / beyond the inner and hard TTLs; every execution of the function is scripted (returns its "
+        "1/16 s grid chosen below / exactly at / beyond the inner and hard TTLs; every execution of the function is scripted (for failover it may take 0 - ttl+ of virtual time; returns its "
         "execution number, raises the listed exception, raises an unlisted one); a background refresh is held on a harness gate and completes "
         "at a later scripted instant (possibly after further calls). non-trivial: at least one call was answered from the store after the "
         "inner TTL, or an execution failed while a stored result was alive")
@@ -54,6 +54,8 @@ def gen_cases(rng, tier):
             else:
                 ev.append(["call", adv])
         d["events"] = ev
+        # failover only: an execution may take time (the stored result is looked up when it has failed, not when the call began)
+        d["durs"] = [rng.choice([0, 0, 0, 2, inner, ttl - 2, ttl + 2]) if kind in ("fail", "failc") else 0 for _ in ev]
         d["script"] = [rng.choice(["ok", "ok", "ok", "A", "B", "A1"]) for _ in range(20)]
         d["exc_tuple"] = rng.random() < 0.4          # exceptions=(KeyError, ExcA) instead of exceptions=ExcA
         cases.append(d)
@@ -108,7 +110,7 @@ def run_impl(case):
 
         steps = []
         await asyncio.sleep(TICK)
-        for op, adv in case["events"]:
+        for n_ev, (op, adv) in enumerate(case["events"]):
             if adv: await asyncio.sleep(adv * TICK)
             pending_bg = [r for r in st["parked"] if not r["done"]]
             if op == "done":
@@ -130,6 +132,9 @@ def run_impl(case):
             if started:
                 body = started[0]
                 if not task.done():      # the caller is waiting for the body: inline execution
+                    dur = (case.get("durs") or [0] * (n_ev + 1))[n_ev]
+                    if dur:
+                        await asyncio.sleep(dur * TICK)
                     body["gate"].set_result(None)
                     await drain()
                     act = "exec"
